@@ -5,7 +5,7 @@ From Coq Require Import ZArith List Bool Arith.
 Import ListNotations.
 Require Import Grist.Model.RefIndex Grist.Model.K4Support Grist.Model.TwoWay GristGen.K4_gen GristGen.RevAdj_gen
                Grist.Proofs.RefIndex_proofs Grist.Proofs.TwoWay_proofs Grist.Proofs.TwoWay_more Grist.Proofs.TwoWay_gen
-               Grist.Proofs.K4_bridge Grist.Proofs.K4_code.
+               Grist.Proofs.K4_bridge Grist.Proofs.K4_code Grist.Proofs.K4_dedup.
 
 (* ---- bridging obligations ------------------------------------------------------------------------------------ *)
 Theorem code_get_reverse_adjustments : forall r o n it rel,
@@ -35,6 +35,12 @@ Theorem code_recalc_in_model : forall hack s,
                         (fun b' => Ok {| p_a := p_a s; p_b := b'; p_rows_a := p_rows_a s; p_rows_b := p_rows_b s |})).
 Proof. exact recalc_from_a_code. Qed.
 
+(* the de-duplication block of doBulkUpdateRecord keeps, in order, the LAST occurrence of every row id, in the row ids
+   and in every column's values *)
+Theorem code_dedup : forall rows (vals : list cell), length vals = length rows ->
+  gen_dedup rows vals = (select (keep_last rows) rows, select (keep_last rows) vals).
+Proof. exact gen_dedup_eq. Qed.
+
 (* ---- the property, about the generated functions ------------------------------------------------------------ *)
 (* the single-valued side: the generated _list_to_value of a Ref raises UNIQUE exactly for two or more referrers, and
    nothing else is ever raised by it *)
@@ -58,6 +64,22 @@ Proof.
   intros hack s s' H1 H2 H3 H4 H5 H6 H7 H. rewrite <- recalc_from_a_code in H.
   destruct (recalc_sym hack s s' H1 H2 H3 H4 H5 H6 H7 H) as [A [B _]]. split; assumption.
 Qed.
+
+(* a user-level update of column A -- the generated de-duplication, then the pipeline with the generated
+   get_reverse_adjustments -- keeps the pair symmetric, for ANY row id list *)
+Theorem C11_code_symmetric_step : forall hack s rows vals s',
+  pair_ok s -> sym s -> length vals = length rows ->
+  update_a hack get_reverse_adjustments s (fst (gen_dedup rows vals)) (snd (gen_dedup rows vals)) = Ok s' ->
+  pair_ok s' /\ sym s'.
+Proof.
+  intros hack s rows vals s' Hok Hsym Hlen H. rewrite (gen_dedup_eq rows vals Hlen) in H. cbn [fst snd] in H.
+  change get_reverse_adjustments with gra in H. rewrite update_a_gra in H.
+  exact (user_update_a_sym hack s rows vals s' Hok Hsym Hlen H).
+Qed.
+
+Example C11_code_dedup_example :
+  gen_dedup [2; 1; 2; 3; 1] [CInt 10; CInt 11; CInt 12; CInt 13; CInt 14] = ([2; 3; 1], [CInt 12; CInt 13; CInt 14]).
+Proof. vm_compute. reflexivity. Qed.
 
 Example C11_code_nonvacuous :
   gen_recalc_adjustments {| rc_kind := KRefList; rc_data := [CNone; CList [1; 2]%Z; CList [2%Z]];
